@@ -76,7 +76,7 @@ func TestC06Watches(t *testing.T) {
 	dbTest(t, "C06", "TestC06Watches", ruleC06, profC06, Options{})
 }
 
-var profC07 = Profile{W: with(baseWeights(), map[int]int{opDelete: 5, opChanges: 3, opNext: 9, opCloseIter: 1, opGC: 5, opSnapshot: 2}), GC: 60, Preamble: gcPreamble, TwoTxns: true, FewKeys: false}
+var profC07 = Profile{W: with(baseWeights(), map[int]int{opDelete: 5, opChanges: 3, opNext: 9, opCloseIter: 1, opGC: 5, opSnapshot: 2}), GC: 60, Preambles: [][]Op{gcPreamble, freshIterPreamble, lagPreamble}, TwoTxns: true, FewKeys: false}
 
 const ruleC07 = "histories with up to 4 change iterators created at arbitrary points (also inside transactions that already wrote), Next called with a monotone choice of fresh ReadTxn, retained snapshot or an open WriteTxn (holding uncommitted writes on the observed table or not), consuming k<n or all changes, Close, and (60% of cases) graveyard collection rounds (scan, park, release) in between; checked: strictly increasing revisions, every delivered change is an object version / deletion committed in the snapshot passed, after full consumption the replayed deliveries equal that snapshot and every deletion since the iterator's creation was delivered, an open watch comes with no changes and closes exactly at the next commit that changes the table. Non-trivial = an iterator that was delivered a deletion and had a partial consumption or a collector round in between, or a Next with a WriteTxn holding uncommitted writes; distinct by case encoding."
 
@@ -93,7 +93,26 @@ var gcPreamble = []Op{
 	{K: opNext, N: 1}, {K: opGC, N: 0},
 }
 
-var profC08 = Profile{Preamble: gcPreamble, W: map[int]int{opBegin: 1, opInsert: 6, opModify: 1, opCAS: 2, opCAD: 2, opDelete: 7, opDeleteAll: 1, opCommit: 6, opAbort: 1, opChanges: 3, opNext: 6, opCloseIter: 2, opGC: 8}, GC: 100, FewKeys: true}
+// freshIterPreamble: the iterator is created on the pristine table (revision
+// 0), then an object is inserted and deleted and a collector round runs before
+// the iterator is asked again.
+var freshIterPreamble = []Op{
+	{K: opChanges}, {K: opCommit},
+	{K: opInsert, ID: []byte{}}, {K: opCommit},
+	{K: opDelete, ID: []byte{}}, {K: opCommit},
+	{K: opGC, N: 2},
+}
+
+// lagPreamble: two iterators, one consumes a deletion (which triggers the
+// collector), the other lags.
+var lagPreamble = []Op{
+	{K: opInsert, ID: []byte{}}, {K: opInsert, ID: []byte{0x00}}, {K: opCommit},
+	{K: opChanges}, {K: opChanges}, {K: opCommit},
+	{K: opDelete, ID: []byte{}}, {K: opCommit},
+	{K: opNext, H: 0, N: -1}, {K: opGC, N: 2},
+}
+
+var profC08 = Profile{Preambles: [][]Op{gcPreamble, freshIterPreamble, lagPreamble}, W: map[int]int{opBegin: 1, opInsert: 6, opModify: 1, opCAS: 2, opCAD: 2, opDelete: 7, opDeleteAll: 1, opCommit: 6, opAbort: 1, opChanges: 3, opNext: 6, opCloseIter: 2, opGC: 8}, GC: 100, FewKeys: true}
 
 const ruleC08 = "histories over few keys (delete / re-insert / re-delete, also through Modify and rejected or successful compare-and-* operations) with 0-4 change iterators at arbitrary progress, Close, virtual-time advances, explicit collector triggers and a gate that parks the collector between its lock-free scan and its write transaction while further operations run; the graveyard worker runs inside a synctest bubble. Checked: the number of retained deletions is never below the deletions not yet handed to every open iterator and never above the deletions made while an iterator was registered (checked after every commit, abort and collector operation), lagging iterators still converge (C07 oracle), nothing is retained without iterators, and after all iterators caught up and 6 collection intervals passed the retained count is 0. Non-trivial = a collector round was released while iterators were open and deliveries happened; distinct by case encoding."
 
